@@ -329,7 +329,16 @@ func (it *Interp) rawEquals(a, b Value) bool {
 		if a == b {
 			return true
 		}
-		unspecified("comparison of an opaque string")
+		// an opaque string is a string: it differs from any value of another type
+		other := a
+		if isOpaque(a) {
+			other = b
+		}
+		switch other.(type) {
+		case string, *ErrStr:
+			unspecified("comparison of an opaque string")
+		}
+		return false
 	}
 	if isNumber(a) && isNumber(b) {
 		va, _ := toNM(a)
